@@ -312,7 +312,7 @@ func RunC10(tier string, args []string) int {
 		c := newC10Cast()
 		depth := 4
 		if wtier == "thorough" {
-			depth = 5
+			depth = 6
 		}
 		out := hWorkerOut{Outcomes: map[string]int{}}
 		vs := newViolSet()
